@@ -184,3 +184,34 @@ def schemas(rng, n, depth):
         if b is not None:
             out.append(b)
     return out
+
+
+# Real binary floats (code -> spec only: the specification's numbers are exact, these are not).
+# Decimal ties that no binary float hits exactly, sums that are not what they print, magnitudes whose
+# scaled value overflows: what one rounding route and another disagree about.
+TIE_VALUES = [(2.675, 2), (6.35, 1), (1.115, 2), (5.825, 2), (7.825, 2), (0.37155, 4), (1.005, 2), (0.15, 1),
+              (0.25, 1), (0.35, 1), (8.35, 1), (-1.115, 2), (0.1 + 0.2, 1), (2.5, 1), (3.45, 1), (1e300, 10),
+              (123456789.125, 2), (0.07, 2), (0.29, 2)]
+TIE_BOUNDS = [("min", 0.065, 2), ("min", 0.07, 2), ("max", 0.285, 2), ("max", 0.29, 2), ("min", 3.141, 2),
+              ("max", 1.005, 2), ("min", 0.14, 2), ("max", 0.57, 2), ("min", 0.28, 2), ("max", 1.13, 2)]
+
+
+def real_float_schemas():
+    """[(description, schema)] built through the DSL"""
+    import d42
+    out = []
+
+    def add(text, make):
+        try:
+            out.append((text, make()))
+        except Exception as e:
+            if type(e).__name__ != "DeclarationError":      # a refused declaration is not a case
+                raise
+    for v, p in TIE_VALUES:
+        add("schema.float(%r).precision(%d)" % (v, p), lambda: d42.schema.float(v).precision(p))
+        add("schema.float.precision(%d)(%r)" % (p, v), lambda: d42.schema.float.precision(p)(v))
+    for which, b, p in TIE_BOUNDS:
+        add("schema.float.%s(%r).precision(%d)" % (which, b, p), lambda: getattr(d42.schema.float, which)(b).precision(p))
+        add("schema.float.precision(%d).%s(%r)" % (p, which, b), lambda: getattr(d42.schema.float.precision(p), which)(b))
+    add("schema.float.min(0.065).max(0.285).precision(2)", lambda: d42.schema.float.min(0.065).max(0.285).precision(2))
+    return out
